@@ -8,6 +8,7 @@ import (
 	"context"
 	"errors"
 	"fmt"
+	"net"
 	"net/http"
 	"net/url"
 	"runtime"
@@ -338,6 +339,10 @@ type Req struct {
 	// FailWriteAfter > 0: the response writer fails once that many body bytes were written
 	FailWriteAfter int `json:"fail_write_after,omitempty"`
 
+	// UnderServer: the request context carries http.ServerContextKey and http.LocalAddrContextKey, as every request does
+	// that net/http's server hands to a handler (requests built by hand or by httptest do not)
+	UnderServer bool `json:"under_server,omitempty"`
+
 	PanicAt    string `json:"panic_at,omitempty"`
 	PanicAfter bool   `json:"panic_after,omitempty"`
 	PanicWith  any    `json:"-"`
@@ -367,7 +372,12 @@ func (q Req) Build() (*http.Request, *Outcome, *Rec) {
 	if q.Chunked {
 		r.TransferEncoding = []string{"chunked"}
 	}
-	r = r.WithContext(context.WithValue(context.Background(), ctxKey{}, o))
+	ctx := context.WithValue(context.Background(), ctxKey{}, o)
+	if q.UnderServer {
+		ctx = context.WithValue(ctx, http.ServerContextKey, &http.Server{})
+		ctx = context.WithValue(ctx, http.LocalAddrContextKey, net.Addr(&net.TCPAddr{IP: net.IPv4(127, 0, 0, 1), Port: 80}))
+	}
+	r = r.WithContext(ctx)
 	rec := &Rec{o: o, hdr: http.Header{}, failAfter: q.FailWriteAfter}
 	return r, o, rec
 }
